@@ -139,5 +139,270 @@ theorem lift_call64 (addr len t bytes : Nat) (haddr : addr + len < 2 ^ 64) (σ :
   simp only [execOps, e1, e2, e3]
   rfl
 
+/-! ### shared pieces for the remaining stack instructions -/
+
+theorem gpr_setReg64 (st : St) (i : Nat) (v : BitVec 64) : (setReg st ⟨i, 64, 0⟩ v).gpr i = v := by
+  simp [setReg, mergeReg]
+
+theorem abs_set64 {σ : State} {st : St} (ha : Abs σ st) {i : Nat} (hi : i < 16) (v : BitVec 64) :
+    Abs (σ.set (rName i) (ofBV v)) (setReg st ⟨i, 64, 0⟩ v) := by
+  have := abs_setReg (r := ⟨i, 64, 0⟩) ha hi v
+  simpa [mergeReg] using this
+
+theorem ltemp_ne_rsp (addr n : Nat) : (ltemp addr n).name ≠ "rsp" := by
+  have := ltemp_ne_rName (i := 4) (by decide) addr n
+  have h4 : rName 4 = "rsp" := by decide
+  rwa [h4] at this
+
+/-- the two operations of `pop_value`: load the slot into the temporary, `rsp += 8` -/
+theorem pop_ops {σ : State} {st : St} (ha : Abs σ st) (addr : Nat) (bs : List UInt8)
+    (hmap : st.mem.readBytes (st.gpr 4).toNat 8 = some bs) (hwrap : (st.gpr 4).toNat + 8 ≤ 2 ^ 64) :
+    ∃ σ2, (∀ rest, execOps (.load (ltemp addr 64) spE :: .assign (X86Lift.scalar "rsp" 64) (.bin .add spE (Expr.ec 8 64)) :: rest) σ =
+        execOps rest σ2) ∧
+      Abs σ2 (setReg st (rsp 64) (st.gpr 4 + 8#64)) ∧
+      σ2.get (ltemp addr 64).name = some (ofBV (BitVec.ofNat 64 (natOfLE bs))) ∧ σ2.mem = σ.mem := by
+  have hr : σ.mem.readBytes (st.gpr 4).toNat 8 = some bs := by rw [ha.mem]; exact hmap
+  have e1 := exec_load (ltemp addr 64) 8 (by decide) rfl (ev_sp ha) hwrap bs hr
+  rw [ha.endian, load_value _ _ _ _ hr] at e1
+  have ha1 := abs_set_ltemp ha addr 64 (ofBV (BitVec.ofNat (8 * 8) (natOfLE bs)))
+  have ht1 := get_set_self σ (ltemp addr 64).name (ofBV (BitVec.ofNat (8 * 8) (natOfLE bs)))
+  have hnsp := Ev.add (ev_sp ha1) (ev_eight (σ := _))
+  have e2 := exec_assign (X86Lift.scalar "rsp" 64) hnsp
+  have ha2 := abs_set_rsp ha1 (st.gpr 4 + 8#64)
+  refine ⟨_, ?_, ha2, ?_, rfl⟩
+  · intro rest
+    simp only [execOps, e1, e2]
+    rfl
+  · rw [get_set_ne _ _ (ltemp_ne_rsp addr 64)]; exact ht1
+
+theorem natOfLE_lt64 {m : ByteMem} {a : Nat} {bs : List UInt8} (h : m.readBytes a 8 = some bs) : natOfLE bs < 2 ^ 64 := by
+  have := C07.natOfLE_lt bs
+  rwa [C07.readBytes_length _ _ _ _ h] at this
+
+/-! ### ret imm16 -/
+
+def insRetImm (addr len v bytes : Nat) : Ins :=
+  { mode := .amd64, mnem := "ret", len := len, asz := 8, ops := [.imm v bytes], addr := addr }
+
+theorem step_retImm64 (addr len v bytes : Nat) (st : St) (bs : List UInt8)
+    (hmap : st.mem.readBytes (st.gpr 4).toNat 8 = some bs) :
+    step (insRetImm addr len v bytes) st =
+      .ok (setReg st (rsp 64) (st.gpr 4 + 8#64 + BitVec.ofNat 64 (v % 2 ^ 16))) (natOfLE bs) [] := by
+  have hc : splitCc "ret" = none := by decide
+  have hsp : BitVec.ofNat 64 (((st.gpr 4).toNat + 8) % 2 ^ 64) = st.gpr 4 + 8#64 := by
+    apply BitVec.eq_of_toNat_eq; simp [BitVec.toNat_add]
+  have hsp2 : ∀ x : BitVec 64, BitVec.ofNat 64 ((x.toNat + v % 2 ^ 16) % 2 ^ 64) = x + BitVec.ofNat 64 (v % 2 ^ 16) := by
+    intro x; apply BitVec.eq_of_toNat_eq; simp [BitVec.toNat_add]
+  have h2 : ∀ x : BitVec 64, getReg (setReg st ⟨4, 64, 0⟩ x) ⟨4, 64, 0⟩ 64 = x := by
+    intro x; simp [getReg, setReg, mergeReg]
+  unfold step insRetImm
+  simp only [hc]
+  simp [pop, readMem, orTrap, Mode.bits, rsp, hmap, hsp, hsp2, h2, setReg64_twice, show getReg st ⟨4, 64, 0⟩ 64 = st.gpr 4 by simp [getReg]]
+
+/-- **`ret imm16`**: pop the return address, then `rsp += imm16` — the immediate ZERO-extended — and branch -/
+theorem lift_retImm64 (addr len v bytes : Nat) (σ : State) (st : St) (ha : Abs σ st)
+    (bs : List UInt8) (hmap : st.mem.readBytes (st.gpr 4).toNat 8 = some bs) (hwrap : (st.gpr 4).toNat + 8 ≤ 2 ^ 64) :
+    ∃ ops σ', opsRetImm64 addr v = .ok ops ∧
+      runBTR { addr := addr, length := len, instrs := [oneBlock addr ops], succs := [] } σ = .next σ' [natOfLE bs] ∧
+      X86.step (insRetImm addr len v bytes) st =
+        .ok (setReg st (rsp 64) (st.gpr 4 + 8#64 + BitVec.ofNat 64 (v % 2 ^ 16))) (natOfLE bs) [] ∧
+      Abs σ' (setReg st (rsp 64) (st.gpr 4 + 8#64 + BitVec.ofNat 64 (v % 2 ^ 16))) := by
+  obtain ⟨σ2, hrun, ha2, ht2, _⟩ := pop_ops ha addr bs hmap hwrap
+  have hnsp2 : Ev σ2 (.bin .add spE (Expr.ec (v % 2 ^ 16) 64)) 64 (st.gpr 4 + 8#64 + BitVec.ofNat 64 (v % 2 ^ 16)) := by
+    refine (Ev.add (ev_sp ha2) (Ev.ec (σ := σ2) (v % 2 ^ 16) 64)).cast ?_
+    have : v % 2 ^ 16 % 2 ^ 64 = v % 2 ^ 16 := by omega
+    rw [this, show rsp 64 = ⟨4, 64, 0⟩ from rfl, gpr_setReg64]
+  have e3 := exec_assign (X86Lift.scalar "rsp" 64) hnsp2
+  have ha3 := abs_set_rsp ha2 (st.gpr 4 + 8#64 + BitVec.ofNat 64 (v % 2 ^ 16))
+  rw [show rsp 64 = ⟨4, 64, 0⟩ from rfl, setReg64_twice] at ha3
+  have ht3 : (σ2.set "rsp" (ofBV (st.gpr 4 + 8#64 + BitVec.ofNat 64 (v % 2 ^ 16)))).get (ltemp addr 64).name =
+      some (ofBV (BitVec.ofNat 64 (natOfLE bs))) := by
+    rw [get_set_ne _ _ (ltemp_ne_rsp addr 64)]; exact ht2
+  have e4 := exec_branch (Ev.scalar (s := ltemp addr 64) ht3)
+  have htn : (BitVec.ofNat 64 (natOfLE bs)).toNat = natOfLE bs := by
+    rw [BitVec.toNat_ofNat]; exact Nat.mod_eq_of_lt (natOfLE_lt64 hmap)
+  rw [htn] at e4
+  refine ⟨[.load (ltemp addr 64) spE, .assign (X86Lift.scalar "rsp" 64) (.bin .add spE (Expr.ec 8 64)),
+      .assign (X86Lift.scalar "rsp" 64) (.bin .add spE (Expr.ec (v % 2 ^ 16) 64)), .branch (.scalar (ltemp addr 64))], _,
+    by simp [opsRetImm64, Expr.mkBin, spE, sc, Expr.bits, bind, Res.bind, pure],
+    ?_, step_retImm64 addr len v bytes st bs hmap, ha3⟩
+  rw [runBTR_one _ _ _ _ _ (by simp), hrun]
+  simp only [X86Lift.scalar] at e3 e4 ⊢
+  simp only [execOps, e3, e4]
+
+/-! ### leave -/
+
+def insLeave (addr len : Nat) : Ins :=
+  { mode := .amd64, mnem := "leave", len := len, asz := 8, ops := [], addr := addr }
+
+theorem nextIp_leave (addr len : Nat) (h : addr + len < 2 ^ 64) : nextIp (insLeave addr len) = addr + len := by
+  simp [nextIp, insLeave, Mode.bits, Nat.mod_eq_of_lt h]
+
+theorem step_leave64 (addr len : Nat) (st : St) (h : addr + len < 2 ^ 64) (bs : List UInt8)
+    (hmap : st.mem.readBytes (st.gpr 5).toNat 8 = some bs) :
+    step (insLeave addr len) st =
+      .ok (setReg (setReg st (rsp 64) (st.gpr 5 + 8#64)) (rbp 64) (BitVec.ofNat 64 (natOfLE bs))) (addr + len) [] := by
+  have hc : splitCc "leave" = none := by decide
+  have hn := nextIp_leave addr len h
+  have hsp : BitVec.ofNat 64 (((st.gpr 5).toNat + 8) % 2 ^ 64) = st.gpr 5 + 8#64 := by
+    apply BitVec.eq_of_toNat_eq; simp [BitVec.toNat_add]
+  have h2 : ∀ x : BitVec 64, getReg (setReg st ⟨4, 64, 0⟩ x) ⟨4, 64, 0⟩ 64 = x := by
+    intro x; simp [getReg, setReg, mergeReg]
+  have hm : ∀ x : BitVec 64, (setReg st ⟨4, 64, 0⟩ x).mem = st.mem := fun _ => rfl
+  unfold step insLeave
+  simp only [hc]
+  simp only [insLeave] at hn
+  simp [pop, readMem, orTrap, done, Mode.bits, rsp, rbp, hn, hmap, hsp, h2, hm, setReg64_twice,
+    show getReg st ⟨5, 64, 0⟩ 64 = st.gpr 5 by simp [getReg]]
+
+/-- **`leave`**: `rsp := rbp`, load eight bytes there, `rsp += 8`, `rbp :=` the loaded value -/
+theorem lift_leave64 (addr len : Nat) (haddr : addr + len < 2 ^ 64) (σ : State) (st : St) (ha : Abs σ st)
+    (bs : List UInt8) (hmap : st.mem.readBytes (st.gpr 5).toNat 8 = some bs) (hwrap : (st.gpr 5).toNat + 8 ≤ 2 ^ 64) :
+    ∃ ops, opsLeave64 addr = .ok ops ∧ Agrees (straight addr len ops) σ (insLeave addr len) st := by
+  have e0 := exec_assign (X86Lift.scalar "rsp" 64) (ev_full ha (i := 5) (by decide))
+  have ha0 := abs_set_rsp ha (st.gpr 5)
+  have hg : (setReg st (rsp 64) (st.gpr 5)).gpr 4 = st.gpr 5 := gpr_setReg64 st 4 _
+  obtain ⟨σ2, hrun, ha2, ht2, hm2⟩ := pop_ops ha0 addr bs (by rw [hg]; exact hmap) (by rw [hg]; exact hwrap)
+  rw [hg, show rsp 64 = ⟨4, 64, 0⟩ from rfl, setReg64_twice] at ha2
+  have e3 := exec_assign (X86Lift.scalar "rbp" 64) (Ev.scalar (s := ltemp addr 64) ht2)
+  have ha3 := abs_set64 ha2 (i := 5) (by decide) (BitVec.ofNat 64 (natOfLE bs))
+  refine ⟨[.assign (X86Lift.scalar "rsp" 64) (sc "rbp" 64), .load (ltemp addr 64) spE,
+      .assign (X86Lift.scalar "rsp" 64) (.bin .add spE (Expr.ec 8 64)), .assign (X86Lift.scalar "rbp" 64) (.scalar (ltemp addr 64))],
+    by simp [opsLeave64, Expr.mkBin, spE, sc, Expr.bits, bind, Res.bind, pure],
+    _, _, ?_, step_leave64 addr len st haddr bs hmap, ha3, ?_⟩
+  · rw [runBTR_straight _ _ _ _ (by simp)]
+    have h1 : ∀ rest, execOps (.assign (X86Lift.scalar "rsp" 64) (sc "rbp" 64) :: rest) σ =
+        execOps rest (σ.set "rsp" (ofBV (st.gpr 5))) := by
+      intro rest
+      have e0' : execute σ (.assign (X86Lift.scalar "rsp" 64) (sc "rbp" 64)) = _ := e0
+      simp only [execOps, e0']
+      rfl
+    rw [h1]
+    simp only [X86Lift.scalar] at hrun e3 ⊢
+    rw [hrun]
+    simp only [execOps, e3, insLeave]
+    rfl
+  · show σ2.mem = σ.mem
+    rw [hm2]; rfl
+
+/-! ### push imm (64-bit operand) -/
+
+def insPushImm (addr len v : Nat) : Ins :=
+  { mode := .amd64, mnem := "push", len := len, asz := 8, ops := [.imm v 8], addr := addr }
+
+theorem nextIp_pushImm (addr len v : Nat) (h : addr + len < 2 ^ 64) : nextIp (insPushImm addr len v) = addr + len := by
+  simp [nextIp, insPushImm, Mode.bits, Nat.mod_eq_of_lt h]
+
+theorem step_pushImm64 (addr len v : Nat) (st : St) (h : addr + len < 2 ^ 64) (bs : List UInt8)
+    (hmap : st.mem.readBytes (st.gpr 4 - 8#64).toNat 8 = some bs) :
+    step (insPushImm addr len v) st =
+      .ok (setReg { st with mem := st.mem.write (st.gpr 4 - 8#64).toNat (bytesOfLE (v % 2 ^ 64) 8) } (rsp 64) (st.gpr 4 - 8#64))
+        (addr + len) [] := by
+  have hc : splitCc "push" = none := by decide
+  have hn := nextIp_pushImm addr len v h
+  have hw : BitVec.setWidth 64 (BitVec.setWidth 64 (st.gpr 4 >>> 0)) = st.gpr 4 := by simp
+  have hsp : ((st.gpr 4).toNat + 2 ^ 64 - 8) % 2 ^ 64 = (st.gpr 4 - 8#64).toNat := by
+    rw [BitVec.toNat_sub]; have := (st.gpr 4).isLt; simp; omega
+  have h82 : (if (8 : Nat) = 2 then 2 else 8) = 8 := by decide
+  unfold step insPushImm
+  simp only [hc]
+  simp only [insPushImm] at hn
+  simp only [push, writeMem, orTrap, done, Mode.bits, hn, getReg, rsp, hw]
+  simp only [h82, hsp, hmap]
+  simp only [BitVec.ofNat_toNat, BitVec.setWidth_eq]
+  simp [-BitVec.toNat_sub, X86.sext]
+
+/-- **`push imm`** with a 64-bit operand: the decoder's (sign-extended) immediate is stored at `rsp - 8`, `rsp -= 8` -/
+theorem lift_pushImm64 (addr len v : Nat) (haddr : addr + len < 2 ^ 64) (σ : State) (st : St) (ha : Abs σ st)
+    (bs : List UInt8) (hmap : st.mem.readBytes (st.gpr 4 - 8#64).toNat 8 = some bs)
+    (hwrap : (st.gpr 4 - 8#64).toNat + 8 ≤ 2 ^ 64) :
+    ∃ ops, opsPushImm64 v = .ok ops ∧ AgreesM (straight addr len ops) σ (insPushImm addr len v) st := by
+  have hnsp := Ev.sub (ev_sp ha) (ev_eight (σ := σ))
+  have hval := Ev.ec (σ := σ) v 64
+  have e1 := exec_store 8 (by decide) rfl hnsp hval hwrap
+  have hb : bytesOf σ.endian (ofBV (BitVec.ofNat 64 (v % 2 ^ 64))) = bytesOfLE (v % 2 ^ 64) 8 := by
+    rw [ha.endian, bytesOf_little]; simp
+  rw [hb, ha.mem] at e1
+  have ha1 : Abs { σ with mem := st.mem.write (st.gpr 4 - 8#64).toNat (bytesOfLE (v % 2 ^ 64) 8) }
+      { st with mem := st.mem.write (st.gpr 4 - 8#64).toNat (bytesOfLE (v % 2 ^ 64) 8) } := abs_store ha _
+  have hnsp1 := Ev.sub (ev_sp ha1) (ev_eight (σ := _))
+  have e2 := exec_assign (X86Lift.scalar "rsp" 64) hnsp1
+  refine ⟨[.store (.bin .sub spE (Expr.ec 8 64)) (Expr.ec v 64), .assign (X86Lift.scalar "rsp" 64) (.bin .sub spE (Expr.ec 8 64))],
+    by simp [opsPushImm64, Expr.mkBin, spE, sc, Expr.bits, bind, Res.bind, pure], _, _, ?_,
+    step_pushImm64 addr len v st haddr bs hmap, abs_set_rsp ha1 _⟩
+  rw [runBTR_straight _ _ _ _ (by simp)]
+  simp only [execOps, e1, e2, insPushImm]
+  rfl
+
+/-! ### call r64 -/
+
+def insCallReg (addr len : Nat) (r : GReg) : Ins :=
+  { mode := .amd64, mnem := "call", len := len, asz := 8, ops := [.reg r], addr := addr }
+
+theorem nextIp_callReg (addr len : Nat) (r : GReg) (h : addr + len < 2 ^ 64) : nextIp (insCallReg addr len r) = addr + len := by
+  simp [nextIp, insCallReg, Mode.bits, Nat.mod_eq_of_lt h]
+
+theorem step_callReg64 (addr len i : Nat) (st : St) (h : addr + len < 2 ^ 64) (bs : List UInt8)
+    (hmap : st.mem.readBytes (st.gpr 4 - 8#64).toNat 8 = some bs) :
+    step (insCallReg addr len ⟨i, 64, 0⟩) st =
+      .ok (setReg { st with mem := st.mem.write (st.gpr 4 - 8#64).toNat (bytesOfLE (addr + len) 8) } (rsp 64) (st.gpr 4 - 8#64))
+        (st.gpr i).toNat [] := by
+  have hc : splitCc "call" = none := by decide
+  have hn := nextIp_callReg addr len ⟨i, 64, 0⟩ h
+  have hw : ∀ j, BitVec.setWidth 64 (BitVec.setWidth 64 (st.gpr j >>> 0)) = st.gpr j := by intro j; simp
+  have hsp : ((st.gpr 4).toNat + 2 ^ 64 - 64 / 8) % 2 ^ 64 = (st.gpr 4 - 8#64).toNat := by
+    rw [BitVec.toNat_sub]; have := (st.gpr 4).isLt; simp; omega
+  have hv : (addr + len) % 2 ^ (8 * (64 / 8)) = addr + len := Nat.mod_eq_of_lt (by simpa using h)
+  unfold step insCallReg
+  simp only [hc]
+  simp only [insCallReg] at hn
+  simp only [readOp, push, writeMem, orTrap, Mode.bits, hn, getReg, rsp, hw, hsp]
+  simp only [Option.map_some, Option.bind_eq_bind, Option.bind_some, hv, show 64 / 8 = 8 from rfl, hmap]
+  simp only [BitVec.ofNat_toNat, BitVec.setWidth_eq]
+  simp [-BitVec.toNat_sub]
+
+/-- **`call r64`**: the target is copied to a temporary BEFORE the return address is pushed, so `call rsp` goes to the OLD
+    stack pointer -/
+theorem lift_callReg64 (i : Nat) (hi : i < 16) (addr len : Nat) (haddr : addr + len < 2 ^ 64) (σ : State) (st : St) (ha : Abs σ st)
+    (bs : List UInt8) (hmap : st.mem.readBytes (st.gpr 4 - 8#64).toNat 8 = some bs)
+    (hwrap : (st.gpr 4 - 8#64).toNat + 8 ≤ 2 ^ 64) :
+    ∃ ops, opsCallReg64 addr len ⟨i, 64, 0⟩ = .ok ops ∧
+      AgreesTo (straight addr len ops) σ (insCallReg addr len ⟨i, 64, 0⟩) st (st.gpr i).toNat := by
+  have hget : Ev σ (getE ⟨i, 64, 0⟩) 64 (st.gpr i) := by
+    have := ev_getE ha (Shape.r64 i) hi
+    simpa [getReg] using this
+  have e0 := exec_assign (temp addr 0 64) hget
+  have ha0 := abs_set_temp ha addr 0 64 (ofBV (st.gpr i))
+  have ht0 := get_set_self σ (temp addr 0 64).name (ofBV (st.gpr i))
+  have hnsp := Ev.sub (ev_sp ha0) (ev_eight (σ := _))
+  have hval : Ev (σ.set (temp addr 0 64).name (ofBV (st.gpr i))) (Expr.ec (addr + len) 64) 64 (BitVec.ofNat 64 (addr + len)) := by
+    have := Ev.ec (σ := σ.set (temp addr 0 64).name (ofBV (st.gpr i))) (addr + len) 64
+    rwa [Nat.mod_eq_of_lt haddr] at this
+  have e1 := exec_store 8 (by decide) rfl hnsp hval hwrap
+  have hb : bytesOf (σ.set (temp addr 0 64).name (ofBV (st.gpr i))).endian (ofBV (BitVec.ofNat 64 (addr + len))) =
+      bytesOfLE (addr + len) 8 := by
+    rw [show (σ.set (temp addr 0 64).name (ofBV (st.gpr i))).endian = σ.endian from rfl, ha.endian, bytesOf_little]
+    simp [Nat.mod_eq_of_lt haddr]
+  rw [hb, show (σ.set (temp addr 0 64).name (ofBV (st.gpr i))).mem = σ.mem from rfl, ha.mem] at e1
+  have ha1 : Abs { σ.set (temp addr 0 64).name (ofBV (st.gpr i)) with mem := st.mem.write (st.gpr 4 - 8#64).toNat (bytesOfLE (addr + len) 8) }
+      { st with mem := st.mem.write (st.gpr 4 - 8#64).toNat (bytesOfLE (addr + len) 8) } := abs_store ha0 _
+  have hnsp1 := Ev.sub (ev_sp ha1) (ev_eight (σ := _))
+  have e2 := exec_assign (X86Lift.scalar "rsp" 64) hnsp1
+  have hne : (temp addr 0 64).name ≠ "rsp" := by
+    have := temp_ne_rName (i := 4) (by decide) addr 0 64
+    have h4 : rName 4 = "rsp" := by decide
+    rwa [h4] at this
+  have ht2 : (State.set { σ.set (temp addr 0 64).name (ofBV (st.gpr i)) with mem := st.mem.write (st.gpr 4 - 8#64).toNat (bytesOfLE (addr + len) 8) }
+      "rsp" (ofBV (st.gpr 4 - 8#64))).get (temp addr 0 64).name = some (ofBV (st.gpr i)) := by
+    rw [get_set_ne _ _ hne]; exact ht0
+  have e3 := exec_branch (Ev.scalar (s := temp addr 0 64) ht2)
+  refine ⟨[.assign (temp addr 0 64) (getE ⟨i, 64, 0⟩), .store (.bin .sub spE (Expr.ec 8 64)) (Expr.ec (addr + len) 64),
+      .assign (X86Lift.scalar "rsp" 64) (.bin .sub spE (Expr.ec 8 64)), .branch (.scalar (temp addr 0 64))],
+    by simp [opsCallReg64, regGet_eq (Shape.r64 i), Expr.mkBin, spE, sc, Expr.bits, bind, Res.bind, pure], _, _, ?_,
+    step_callReg64 addr len i st haddr bs hmap, abs_set_rsp ha1 _⟩
+  rw [runBTR_straight _ _ _ _ (by simp)]
+  simp only [X86Lift.scalar] at e2 e3 ⊢
+  simp only [execOps, e0, e1, e2, e3]
+
 end C01
 end Falcon
